@@ -34,6 +34,21 @@ FILES = {
     "content_evaluation/german_strom_and_gas_tag.py": ["C20"],
     "utility_functions.py": ["C12", "C11", "C16"],
     "validation/validation.py": ["C13", "C14", "C16", "C17", "C15"],
+    # second group (run with --files ...): parsers' Python code, package expansion, (de)serialisation, evaluator plumbing
+    "expressions/condition_expression_parser.py": ["C01", "C02", "C18", "C11"],
+    "expressions/ahb_expression_parser.py": ["C02", "C09", "C11"],
+    "expressions/package_expansion.py": ["C10"],
+    "json_serialization/tree_schema.py": ["C19"],
+    "json_serialization/concise_tree_schema.py": ["C19"],
+    "json_serialization/concise_condition_key_tree_schema.py": ["C19"],
+    "models/evaluation_results.py": ["C19", "C09"],
+    "models/content_evaluation_result.py": ["C19", "C12"],
+    "models/enums.py": ["C19", "C09"],
+    "models/mapping_results.py": ["C19", "C10"],
+    "content_evaluation/evaluators.py": ["C12", "C08"],
+    "content_evaluation/evaluator_factory.py": ["C12", "C06"],
+    "content_evaluation/token_logic_provider.py": ["C12", "C10"],
+    "content_evaluation/evaluationdatatypes.py": ["C12", "C15"],
 }
 CMP = {ast.Eq: "!=", ast.NotEq: "==", ast.Lt: "<=", ast.LtE: "<", ast.Gt: ">=", ast.GtE: ">", ast.Is: "is not",
        ast.IsNot: "is", ast.In: "not in", ast.NotIn: "in"}
